@@ -35,6 +35,8 @@ var (
 	// baselineCallers lists, for an unexported listed function, the listed
 	// functions that called it statically in the verified tree.
 	baselineCallers = map[string][]string{}
+	// baselineSigs holds the parameter and result types of a listed function.
+	baselineSigs = map[string]string{}
 	// renamed maps a function that took over the role of a listed function
 	// (see DetectRenames) to the listed key.
 	renamed = map[*ssa.Function]string{}
@@ -71,6 +73,9 @@ func loadBaseline() {
 		}
 		if len(cols) > 2 && cols[2] != "" {
 			baselineCallers[key] = strings.Split(cols[2], ";")
+		}
+		if len(cols) > 3 {
+			baselineSigs[key] = cols[3]
 		}
 	}
 }
@@ -164,6 +169,10 @@ func DetectRenames(goos string, fns []*ssa.Function) (pairs []string) {
 		if competitors > 0 {
 			continue
 		}
+		// a new spelling keeps the parameters and results; anything else is new code (expanded into its callers)
+		if bs := baselineSigs[match[0].key]; bs != "" && bs != ParamSig(fn) {
+			continue
+		}
 		renamed[fn] = match[0].key
 		pairs = append(pairs, match[0].key+" -> "+nk)
 	}
@@ -207,6 +216,36 @@ func IsNew(fn *ssa.Function) bool {
 // (see above) and has a body.
 func Transparent(h *ssa.Function) bool {
 	return h != nil && len(h.Blocks) > 0 && IsNew(h)
+}
+
+// ParamSig renders the parameter and result types of fn (without the receiver).
+func ParamSig(fn *ssa.Function) string {
+	tuple := func(t *types.Tuple) string {
+		var parts []string
+		for i := 0; i < t.Len(); i++ {
+			parts = append(parts, types.TypeString(t.At(i).Type(), nil))
+		}
+		return strings.Join(parts, ", ")
+	}
+	v := ""
+	if fn.Signature.Variadic() {
+		v = "..."
+	}
+	return "(" + tuple(fn.Signature.Params()) + v + ") (" + tuple(fn.Signature.Results()) + ")"
+}
+
+// InventorySigs returns ParamSig for every declared function of the module, under both of its keys.
+func (p *Prog) InventorySigs() map[string]string {
+	out := map[string]string{}
+	for _, fn := range append(append([]*ssa.Function{}, p.ModFns...), p.Wrappers()...) {
+		if fn.Parent() != nil || fn.Object() == nil || (fn.Synthetic != "" && fn.Origin() == nil) {
+			continue
+		}
+		r := rootOf(fn)
+		out[FuncKey(r)] = ParamSig(r)
+		out[strings.ReplaceAll(strings.ReplaceAll(r.String(), ModInternal, ""), ModPath+".", "main.")] = ParamSig(r)
+	}
+	return out
 }
 
 // Inventory lists the declared functions of the module in p.
